@@ -18,7 +18,7 @@ from .data_structures import (
     Snapshot,
     TableMetadata,
 )
-from .file_manager import FileManager
+from .file_manager import MANIFEST_COUNT_SUMMARY_KEY, FileManager, recorded_manifest_count
 from .logging_config import get_logger
 from .metadata_manager import (
     AmbiguousCommitError,
@@ -527,7 +527,9 @@ class Transaction:
             if path.startswith("/"):
                 path = path.lstrip("/")
             try:
-                existing_manifests = self.file_manager.read_manifest_list_file(path)
+                existing_manifests = self.file_manager.read_manifest_list_file(
+                    path, expected_manifests=recorded_manifest_count(base_snapshot)
+                )
             except Exception as e:
                 raise RuntimeError(
                     f"Cannot read base snapshot manifest list "
@@ -544,7 +546,10 @@ class Transaction:
                     manifest_path = manifest_path.lstrip("/")
 
                 try:
-                    data_files = self.file_manager.read_manifest_file(manifest_path)
+                    data_files = self.file_manager.read_manifest_file(
+                        manifest_path,
+                        expected_entries=self.file_manager.expected_entry_count(manifest),
+                    )
                 except Exception as e:
                     # If we can't read a manifest, we can't safely filter it.
                     raise RuntimeError(
@@ -607,6 +612,8 @@ class Transaction:
             snapshot_id=snapshot_id,
             metadata_mutator=mutator,
             sequence_number=sequence_number,
+            # Lets readers and GC tell a truncated manifest list from a short one.
+            summary={MANIFEST_COUNT_SUMMARY_KEY: str(len(final_manifests))},
         )
 
     @staticmethod
@@ -1298,7 +1305,9 @@ class Table:
                 f"list '{snapshot.manifest_list}' - table metadata is inconsistent"
             )
 
-        manifest_files = self.file_manager.read_manifest_list_file(manifest_list_path)
+        manifest_files = self.file_manager.read_manifest_list_file(
+            manifest_list_path, expected_manifests=recorded_manifest_count(snapshot)
+        )
 
         all_data_files = []
         seen_paths = set()
@@ -1316,7 +1325,10 @@ class Table:
                     f"- table metadata is inconsistent"
                 )
 
-            manifest_data_files = self.file_manager.read_manifest_file(manifest_path)
+            manifest_data_files = self.file_manager.read_manifest_file(
+                manifest_path,
+                expected_entries=self.file_manager.expected_entry_count(manifest_ref),
+            )
 
             for data_file in manifest_data_files:
                 # Normalize before de-duplicating: the same file can appear as
